@@ -531,7 +531,37 @@ def _flatten_args(ip, st, args):
     return list(args)
 
 
+def _sym_extreme(ip, st, args, kw, want_max):
+    """min()/max() of ONE integer sequence of symbolic length (CPython: an element of the sequence that bounds every
+    element; `default` for an empty one, ValueError without it).  Model: the value is seq[w] for a fresh in-range
+    witness index w (appended to st.ghost['extreme_witnesses'] so that contracts can instantiate per-index facts
+    there); the bound `seq[k] <= seq[w]` (>= for min) is recorded with values.lazy_forall, not as a quantifier."""
+    if len(args) != 1 or set(kw) - {"default"}:
+        return NotImplemented
+    v = ip.iter_view(st, st.force(args[0]))
+    if isinstance(v, LRef):
+        v = v.seq
+    n = Q.seq_len(v)
+    if isinstance(n, int):
+        return NotImplemented
+    if not st.branch(V._cmp(">", n, 0)):
+        if "default" in kw:
+            return kw["default"]
+        _raise(ValueError, "max() arg is an empty sequence" if want_max else "min() arg is an empty sequence")
+    w = st.fresh_int("argmax" if want_max else "argmin")
+    st.assume(both(V._cmp(">=", w, 0), V._cmp("<", w, n)))
+    m = Q.seq_get(v, w)
+    if not is_num(m):
+        raise Unsupported("min/max over a symbolic sequence of non-numbers")
+    V.lazy_forall(0, n, (lambda k: Q.seq_get(v, k) <= m) if want_max else (lambda k: Q.seq_get(v, k) >= m))
+    st.ghost.setdefault("extreme_witnesses", []).append(w)
+    return m
+
+
 def b_min(ip, st, *args, **kw):
+    r = _sym_extreme(ip, st, args, kw, False)
+    if r is not NotImplemented:
+        return r
     xs = [st.force(x) for x in _flatten_args(ip, st, args)]
     if not xs:
         if "default" in kw:
@@ -547,6 +577,9 @@ def b_min(ip, st, *args, **kw):
 
 
 def b_max(ip, st, *args, **kw):
+    r = _sym_extreme(ip, st, args, kw, True)
+    if r is not NotImplemented:
+        return r
     xs = [st.force(x) for x in _flatten_args(ip, st, args)]
     if not xs:
         if "default" in kw:
